@@ -49,6 +49,11 @@ type Type struct {
 	Key    *Attr   `json:"key,omitempty"`    // map key
 	Fields []*Attr `json:"fields,omitempty"` // object
 	Name   string  `json:"name,omitempty"`   // user type name
+	// Extend names the user type an object extends (DSL Extend): Fields already holds the merged
+	// attribute list, the inherited ones flagged; RequiredRepeat are base-required names the extending
+	// object lists again in its own Required()
+	Extend         string   `json:"extend,omitempty"`
+	RequiredRepeat []string `json:"required_repeat,omitempty"`
 }
 
 // Attr is an attribute: a (possibly named) typed slot with constraints.
@@ -61,6 +66,7 @@ type Attr struct {
 	Val      *Validation `json:"validation,omitempty"`
 	View     string      `json:"view,omitempty"` // result-type attribute rendered with this view
 	Sec      string      `json:"sec,omitempty"`  // username | password | apikey:<scheme> | token | accesstoken
+	Inherited bool       `json:"inherited,omitempty"` // comes from the extended type (not re-declared in the DSL)
 	ErrName  bool        `json:"err_name,omitempty"` // ErrorName(): the attribute of a custom error type that holds the error name
 }
 
